@@ -365,4 +365,27 @@ def rule_timeout_ends(ctx):
     ctx.borrow(rule_end, {"C16.END": "C10.TIMEOUT"})
 
 
-RULES = [rule_who, rule_finally, rule_pair, rule_manager, rule_timeout_ends]
+def rule_borrowed_r4(ctx):
+    from .c14 import rule_shield
+    from .c19 import rule_noswallow
+    p = ctx.p
+    ctx.rule("C10.SHIELD", "the guard never cancels the session's presence futures: a cancelled future makes the dispatcher's clean-up raise before the slots are given back (shared with C14.SHIELD)")
+    ctx.borrow(rule_shield, {"C14.SHIELD": "C10.SHIELD"})
+    w = p.wrapper_of("ConnectionConditions")
+    canc = [c for c in walk_no_nested(w) if isinstance(c, ast.Call) and is_method_call(c, "cancel")]
+    ctx.ob("C10.SHIELD", canc[0] if canc else w, "the guard cancels nothing", not canc,
+           f"the guard calls `{src(canc[0])[:40] if canc else ''}`: cancelling the gather cancels the session futures it was built from; `connection.passive_server` then raises "
+           "CancelledError inside the dispatcher's finally and the connection/user slots are never released", construct="guard:cancels")
+    ctx.rule("C10.READER", "a session always has a command reader (or ends): parse_command returns a pair on every normal path, so the dispatcher re-arms the read - a session without "
+                           "a reader never notices the disconnect and keeps its slots (shared with C19.PAIR)")
+    ctx.borrow(rule_noswallow, {"C19.PAIR": "C10.READER"})
+    ctx.rule("C10.KEY", "the per-user counters are keyed by the User object's identity: User defines no __eq__/__hash__ of its own (a hash over mutable fields loses the counter "
+                        "when a field changes while a session is attached)")
+    uc = p.cls("User")
+    special = [n.name for n in uc.body if isinstance(n, FuncT) and n.name in ("__eq__", "__hash__")]
+    ctx.ob("C10.KEY", uc, "User defines neither __eq__ nor __hash__", not special,
+           f"User defines {special}: the counter table of the user manager is keyed by User objects, a key that depends on mutable attributes (password, paths) cannot be found again "
+           "after a change - notify_logout raises KeyError and the slot is never returned", construct=f"key:User {special}")
+
+
+RULES = [rule_who, rule_finally, rule_pair, rule_manager, rule_timeout_ends, rule_borrowed_r4]
